@@ -32,7 +32,7 @@ TECHNIQUE = "Lean 4 proof of the handler structure over ast-generated tables + e
 
 KIND_TEXT = {
     "int": ["3", "0", "(0-2)", "10^30", "1"], "frac": ["(1/2)", "(0-7/3)"], "float": ["2.5", "(0-0.5)", "1e300", "1e-300"],
-    "lazy": ["5!", "C(6,2)", "0!", "3!/5!"],
+    "lazy": ["5!", "C(6,2)", "0!", "3!/5!", "(0*4!)", "(0/5!)", "(3!*(1/4))"],
     "qty": ["3 m", "2 s", "(1/2) kg", "90 deg", "5 usd", "0 degC", "1 m^2|s", "0 m"], "arr": ["{1,2,3}", "{}", "{1 m, 2 m}", "{{1},{2}}", "{\"a\"}", "{1/2, 2.5}"],
     "intv": ["[1,2]", "[0-1,1]", "[0,0]", "[1.5, 2.5]", "[1/2, 3]"],
     "inst": ["#2020-01-31#", "#2020-02-29T12:00#", "#9999-12-31#", "#0001-01-01#", "#2020-12-31T23:59:59.999999#"],
@@ -47,9 +47,10 @@ BIG = re.compile(r"\d{7,}|e\d{2,}|\^\s*\(?\d{3,}|10\^[3-9]\d|10\^\d{3,}")
 class PltStub:
     """recording stand-in for matplotlib.pyplot"""
     def __getattr__(self, name):
-        def f(*a, **k):
-            return self
-        return f
+        return self
+
+    def __call__(self, *a, **k):
+        return self
 
 
 def classify(r):
@@ -193,7 +194,7 @@ def check(ctx):
     for text in ["", " ", ";", ";;", "1;", ";1", "%", "(", ")", "1 +", "x =", "=", "1e", "1e-", "0x", "0b2", "#", "\"", "{", "[1,", "f(", "f(1,", "1..", "..1",
                  "1 to", "to m", "1 m to", "1 m |", "1 m^", "1 m^x", "1 m^1.5", "instant", "1.5e400", "2^20000", "10^5000/3", "1/(10^400) + 0.5",
                  "sample(Geometric(1))", "max(5)", "max()", "range(1,2,0)", "ceil(#2020-01-31#)", "#2020-01-01# + 1 ms", "log(8,-2)", "ln(1/10^400)",
-                 "5!/(0*4!)", "3! m", "{3!}", "P(Binomial(10,.3) < 2.5)", "#2020-13-01#", "#2020-02-30#", "#abc#", "#2020-01-01T25:00#", "1 kdegC",
+                 "5!/(0*4!)", "1/(0*3!)", "(2/2)/(0*4!)", "x = 1/(0*3!); 5", "y = 0*4!; 1/y", "0/(0*5!)", "3! m", "{3!}", "P(Binomial(10,.3) < 2.5)", "#2020-13-01#", "#2020-02-30#", "#abc#", "#2020-01-01T25:00#", "1 kdegC",
                  "1 degC^2", "1 degC m", "(1 m) m", "5 to m", "x", "f(1)", "sin(1, 2)", "sin(x: 1)", "options(grid: \"a\")", "options(nosuch: 1)",
                  "1 < 2 < 3 < 4", "1 > 2 < 3", "1 <= 2 > 3", "{1 : 2}", "{x : x in 5}", "{x : x in 1..3, 2}", "a = b = 1", "1 = 1", "1 in 2",
                  "1 ± \"a\"", "[2,1]", "[1,2]^0.5", "[-1,1]^-1", "sqrt([-1,1])", "ln([0,1])", "0^-1", "0.0^-1", "(-8)^(1/3)", "1e308*10", "1e308+1e308",
@@ -239,7 +240,8 @@ def check(ctx):
     ctx.correspond("exec", cases)
     ctx.correspond("execcmd", cmd_cases, agree=lambda real, model, info: model.split(" ")[0] == real)
     # ---- (vi) command line: exit code = status
-    sample = ["1+1", "1/0", "x", "2 m to s", "{1,2", "\"abc\"", "5!", "max()", "#2020-01-31# + 1", "3 ± 1", "", "1.5e400"]
+    sample = ["1+1", "1/0", "x", "2 m to s", "{1,2", "\"abc\"", "5!", "max()", "#2020-01-31# + 1", "3 ± 1", "", "1.5e400",
+              "-1+2", "-(3!)", "-5", "-pi", "- 1", "-1/0", "-x", "-3 m", "+1", " -1", "--1", "-"]
     if not ctx.quick():
         sample += [c[2] for c in rng.sample(cases, min(120, len(cases)))]
     home = core.scratch_home()
@@ -247,7 +249,7 @@ def check(ctx):
     from concurrent.futures import ThreadPoolExecutor
 
     def cli(text):
-        if text.startswith("-") or "\x00" in text:
+        if "\x00" in text or text in ("-h", "--help"):
             return None
         try:
             p = subprocess.run([sys.executable, "-m", "ka.cli", text], env=env, stdout=subprocess.PIPE, stderr=subprocess.PIPE, text=True, timeout=60)
